@@ -339,6 +339,50 @@ func runJournalStopTimes(c *Ctx) {
 		}
 	}
 	c.Check(okCall, "PART", fname, "partition of the journal's list against this update", p.pos(tu.Pos()), "createPartition(trip.StopTimes, tripUpdate.StopTimeUpdates)", "the partition is not computed from the trip's current list and this update's stop time updates")
+	// the partition's prefix and pairs point into the list's backing array: until both loops are done the list must
+	// stay in that array (a reslice is fine, a reallocated copy is not: marks and refreshes would land in the old one)
+	{
+		var cpCall ssa.Instruction
+		for _, blk := range tu.Blocks {
+			for _, in := range blk.Instrs {
+				if call, ok := in.(*ssa.Call); ok && staticCallee(call) == cp {
+					cpCall = call
+				}
+			}
+		}
+		var loops []*Loop
+		if l := first(headerLoopsOver(tu, ps.past)); l != nil {
+			loops = append(loops, l)
+		}
+		if l := first(headerLoopsOver(tu, ps.upd)); l != nil {
+			loops = append(loops, l)
+		}
+		moved := ""
+		nStores := 0
+		for _, blk := range tu.Blocks {
+			for _, in := range blk.Instrs {
+				st, ok := in.(*ssa.Store)
+				if !ok || !strings.HasSuffix(canon(st.Addr), ".StopTimes") {
+					continue
+				}
+				nStores++
+				if sl, isSl := st.Val.(*ssa.Slice); isSl && canon(sl.X) == "*("+canon(st.Addr)+")" {
+					continue // same backing array
+				}
+				if cpCall == nil || !(cpCall.Block() == blk || canReach(cpCall.Block(), blk)) {
+					continue
+				}
+				for _, l := range loops {
+					if l.Blocks[blk] || canReach(blk, l.Header) {
+						moved = p.ipos(st)
+					}
+				}
+			}
+		}
+		if cpCall != nil && len(loops) == 2 {
+			c.Check(moved == "", "PART", fname, "entries are marked and refreshed in the list itself", p.pos(tu.Pos()), fmt.Sprintf("none of the %d stores to StopTimes that can precede the mark / refresh loops gives the list another backing array", nStores), "StopTimes is given another backing array at "+moved+" while the partition still points into the old one: the marks and refreshes that follow are written to entries that are no longer in the list")
+		}
+	}
 	// J4: createPartition
 	runPartitionShape(c, cp, ps, b)
 }
@@ -1018,7 +1062,40 @@ func runTripUpdateShape(c *Ctx, tu *ssa.Function, b *binder) {
 		c.Violated("ACCT", fname, "bookkeeping fields", p.pos(tu.Pos()), "Trip.update stores nothing")
 		return
 	}
-	all, _ := storesOnAllPaths(tu, tu.Params[0], body)
+	all, some := storesOnAllPaths(tu, tu.Params[0], body)
+	// `if update has a vehicle { trip.IsAssigned = true }` says the same as `trip.IsAssigned = trip.IsAssigned || update has a
+	// vehicle`: a store of true whose only additional condition is the vehicle's presence, tested on every path
+	assignedByGuard := false
+	if _, onAll := all["IsAssigned"]; !onAll {
+		if st, ok := some["IsAssigned"]; ok {
+			if k, isC := st.Val.(*ssa.Const); isC {
+				if bv, isB := constBool(k); isB && bv {
+					base := map[ssa.Value]bool{}
+					for _, ce := range dominatingConds(body) {
+						base[ce.Cond] = true
+					}
+					var extra []condEdge
+					for _, ce := range dominatingConds(st.Block()) {
+						if !base[ce.Cond] {
+							extra = append(extra, ce)
+						}
+					}
+					if len(extra) == 1 && extra[0].If != nil {
+						gs := guardStrings(b, st.Block())
+						vehicleGuard := hasGuard(gs, "+", U+".Vehicle", "!= const:nil") || hasGuard(gs, "-", U+".Vehicle", "== const:nil")
+						ifBlk := extra[0].If.Block()
+						onEvery := true
+						for _, blk := range tu.Blocks {
+							if _, isRet := blk.Instrs[len(blk.Instrs)-1].(*ssa.Return); isRet && body.Dominates(blk) && blk != ifBlk && canReachAvoiding(body, blk, ifBlk) && body != ifBlk {
+								onEvery = false
+							}
+						}
+						assignedByGuard = vehicleGuard && onEvery
+					}
+				}
+			}
+		}
+	}
 	want := map[string]bindReq{
 		"TripUID":      {[]string{U + ".ID.ID", U + ".ID.StartDate", U + ".ID.StartTime"}, nil},
 		"TripID":       {[]string{U + ".ID.ID"}, []string{"RouteID", "StartDate"}},
@@ -1038,6 +1115,10 @@ func runTripUpdateShape(c *Ctx, tu *ssa.Function, b *binder) {
 	sort.Strings(fields)
 	for _, f := range fields {
 		s, ok := all[f]
+		if !ok && f == "IsAssigned" && assignedByGuard {
+			c.Proved("ACCT", fname, "Trip."+f+" recorded by every applied update", p.ipos(some[f]), "set to true exactly when the update carries a vehicle (tested on every path), otherwise kept")
+			continue
+		}
 		if !ok {
 			c.Violated("ACCT", fname, "Trip."+f+" recorded by every applied update", p.pos(tu.Pos()), "an applied update leaves Trip."+f+" unchanged on some path")
 			continue
